@@ -362,7 +362,7 @@ func scaling(c *simkit.Choices, x *simkit.Ctx, cd *common.Codec, f model.Format)
 		runtime.UnlockOSThread()
 		return d, name, len(data)
 	}
-	const n1, n2 = 16 << 10, 64 << 10
+	const n1, n2 = 64 << 10, 256 << 10
 	st.Eval(2)
 	st.Fault("tiny-chunks-on-monotonous-input")
 	t1, name, _ := measure(n1)
